@@ -876,6 +876,47 @@ class SymTuple(tuple):
         return tuple.__getitem__(self, i)
 
 
+class SymDict:
+    """dict whose keys may be symbolic ints: lookups compare with == (forking when undecided),
+    which is exactly the semantics of hashing equal keys.  Used for pendulum.tz._tz_cache."""
+
+    def __init__(self):
+        self._items = []
+
+    def _find(self, key):
+        for i, (k, v) in enumerate(self._items):
+            r = (k == key)
+            if r if isinstance(r, bool) else bool(r):
+                return i
+        return -1
+
+    def __contains__(self, key):
+        return self._find(key) >= 0
+
+    def __getitem__(self, key):
+        i = self._find(key)
+        if i < 0:
+            raise KeyError(key)
+        return self._items[i][1]
+
+    def __setitem__(self, key, value):
+        i = self._find(key)
+        if i >= 0:
+            self._items[i] = (key, value)
+        else:
+            self._items.append((key, value))
+
+    def get(self, key, default=None):
+        i = self._find(key)
+        return default if i < 0 else self._items[i][1]
+
+    def clear(self):
+        self._items.clear()
+
+    def __len__(self):
+        return len(self._items)
+
+
 def symtuple(t):
     if isinstance(t, tuple) and not isinstance(t, SymTuple):
         return SymTuple(symtuple(x) for x in t)
@@ -975,7 +1016,11 @@ class SFloat:
         if isinstance(x, SInt):
             lo, hi = x.bounds()
             if lo is None or max(abs(lo), abs(hi)) > _TWO53:
-                raise Unmodelled("SInt not provably exact as float")
+                # interval bounds are loose (digit atoms): ask the solver once
+                e = eng()
+                z = x.z()
+                if e._check(z3.Or(z > _TWO53, z < -_TWO53)) != z3.unsat:
+                    raise Unmodelled("SInt not provably exact as float")
             return SFloat(x, 1)
         if isinstance(x, float):
             fr = Fraction(x)
@@ -996,7 +1041,10 @@ class SFloat:
 
     def maxabs(self):
         lo, hi = self.nbounds()
-        return Fraction(max(abs(lo), abs(hi)), self.d) + max(abs(self.elo), abs(self.ehi))
+        m = max(abs(lo), abs(hi))
+        if self.d == 1:
+            m = min(m, _TWO53)       # SFloat.of() proved |n| <= 2^53 when the interval bounds are looser
+        return Fraction(m, self.d) + max(abs(self.elo), abs(self.ehi))
 
     def is_concrete(self):
         return isinstance(self.n, int) and self.exact()
